@@ -6,7 +6,10 @@
 #define NFILES 4
 #define FCAP 4096
 #define NSTREAMS 6
-struct vfile { char name[40]; unsigned char data[FCAP]; long size; int used; };
+#define BIGFCAP 40000
+struct vfile { char name[40]; unsigned char* data; long cap; long size; int used; };
+/* separate objects per file; the first slot can hold a file that spans several 16000-byte blocks */
+static unsigned char vdata0[BIGFCAP], vdata1[FCAP], vdata2[FCAP], vdata3[FCAP];
 struct vstream { int used; int file; long pos; int readable, writable, append, eof, err; };
 static struct vfile vfs[NFILES];
 static struct vstream vst[NSTREAMS];
@@ -34,7 +37,9 @@ static int vcreate(const char* name)
 {
 	for (int i = 0; i < NFILES; i++) if (!vfs[i].used) {
 		int k = 0; while (name[k] && k < 39) { vfs[i].name[k] = name[k]; k++; }
-		vfs[i].name[k] = 0; vfs[i].used = 1; vfs[i].size = 0; return i;
+		vfs[i].name[k] = 0; vfs[i].used = 1; vfs[i].size = 0;
+		vfs[i].data = i == 0 ? vdata0 : i == 1 ? vdata1 : i == 2 ? vdata2 : vdata3; vfs[i].cap = i == 0 ? BIGFCAP : FCAP;
+		return i;
 	}
 	return -1;
 }
@@ -69,7 +74,7 @@ size_t fwrite(const void* p, size_t sz, size_t n, FILE* s)
 	if (!s || !s->writable || sz == 0) return 0;
 	struct vfile* f = &vfs[s->file];
 	if (s->append) s->pos = f->size;
-	while (put < want && s->pos < FCAP) { f->data[s->pos++] = d[put++]; if (s->pos > f->size) f->size = s->pos; }
+	while (put < want && s->pos < f->cap) { f->data[s->pos++] = d[put++]; if (s->pos > f->size) f->size = s->pos; }
 	return put / sz;
 }
 int getc(FILE* s) { struct vfile* f = &vfs[s->file]; if (!s->readable || s->pos >= f->size) { s->eof = 1; return -1; } return f->data[s->pos++]; }
